@@ -1172,4 +1172,119 @@ theorem sqrtrem2_spec : Sqrtrem2Spec := by
 theorem dcSpec : DcSpec := dcSpec_of_sqrtrem2 sqrtrem2_spec
 
 
+
+/-! ### mpn_sqrtrem, all paths; limb lists -/
+
+
+theorem val_toLimbs : ∀ (n v : Nat), val (toLimbs n v) = v % B ^ n ∧ (toLimbs n v).length = n
+  | 0, v => by simp [toLimbs, Nat.mod_one]
+  | n + 1, v => by
+    obtain ⟨ih, il⟩ := val_toLimbs n (v / B)
+    simp only [toLimbs, val_cons, ih, List.length_cons, il, pow_succ, and_true]
+    rw [Nat.mul_comm (B ^ n) B, Nat.mod_mul]
+
+theorem natLimbs_zero : natLimbs 0 = [] := by rw [natLimbs]; simp
+
+theorem natLimbs_pos (v : Nat) (h : v ≠ 0) : natLimbs v = v % B :: natLimbs (v / B) := by
+  rw [natLimbs]; simp [h]
+
+theorem val_natLimbs (v : Nat) : val (natLimbs v) = v ∧ ((natLimbs v).length = 0 ↔ v = 0) := by
+  induction v using Nat.strong_induction_on with
+  | _ v ih =>
+    by_cases h : v = 0
+    · subst h; simp [natLimbs_zero]
+    · rw [natLimbs_pos v h]
+      have := (ih (v / B) (Nat.div_lt_self (Nat.pos_of_ne_zero h) (by unfold B; norm_num))).1
+      simp only [val_cons, this, List.length_cons]
+      exact ⟨Nat.mod_add_div v B, by simp [h]⟩
+
+/-- the most significant limb brackets the value. -/
+theorem val_getLast : ∀ (l : List Nat), l ≠ [] → Limbs l →
+    l.getLastD 0 * B ^ (l.length - 1) ≤ val l ∧ val l < (l.getLastD 0 + 1) * B ^ (l.length - 1) ∧
+    l.getLastD 0 < B
+  | [], h, _ => absurd rfl h
+  | [x], _, hl => by simpa using (Limbs_cons.mp hl).1
+  | x :: y :: ys, _, hl => by
+    obtain ⟨hx, hl'⟩ := Limbs_cons.mp hl
+    obtain ⟨i1, i2, i3⟩ := val_getLast (y :: ys) (by simp) hl'
+    have e : (x :: y :: ys).getLastD 0 = (y :: ys).getLastD 0 := by simp [List.getLastD]
+    rw [e]
+    simp only [List.length_cons, Nat.add_sub_cancel] at i1 i2 ⊢
+    rw [val_cons]
+    generalize (y :: ys).getLastD 0 = h at *
+    generalize val (y :: ys) = w at *
+    rw [pow_succ]
+    generalize B ^ ys.length = P at *
+    refine ⟨by nlinarith, by nlinarith, i3⟩
+
+
+/-- value-level mpn_sqrtrem, all paths. -/
+theorem sqrtremVal_spec (u nn high : Nat) (hnn : 0 < nn) (hu1 : high * B ^ (nn - 1) ≤ u)
+    (hu2 : u < (high + 1) * B ^ (nn - 1)) (hp : 0 < high) (hB : high < B) :
+    sqrtremVal u nn high = (Nat.sqrt u, u - Nat.sqrt u * Nat.sqrt u) := by
+  by_cases hbr : nn = 1 ∧ high ≥ B / 2
+  · obtain ⟨h1, h2⟩ := hbr
+    subst h1
+    simp only [Nat.sub_self, pow_zero, Nat.mul_one] at hu1 hu2
+    have : u = high := by omega
+    subst this
+    unfold sqrtremVal
+    rw [if_pos ⟨rfl, h2⟩]
+    obtain ⟨e, r⟩ := sqrtrem1_sq u (by have := B_eq; omega) hB
+    obtain ⟨d1, d2⟩ := sqrt_of_rem e r
+    exact Prod.ext d1 d2
+  · exact sqrtremVal_norm u nn high hnn hu1 hu2 hp hB hbr dcSpec
+
+theorem sqrtrem_full (np : List Nat) (hl : Limbs np) (hne : np ≠ []) (hhi : np.getLastD 0 ≠ 0) :
+    val (sqrtrem np).sp = Nat.sqrt (val np) ∧ (sqrtrem np).sp.length = (np.length + 1) / 2 ∧
+    val (sqrtrem np).rp = val np - Nat.sqrt (val np) * Nat.sqrt (val np) ∧
+    (sqrtrem np).rn = (sqrtrem np).rp.length ∧
+    ((sqrtrem np).rn = 0 ↔ ∃ k, val np = k * k) := by
+  have hlen : 0 < np.length := List.length_pos_iff.mpr hne
+  obtain ⟨g1, g2, g3⟩ := val_getLast np hne hl
+  have hv := sqrtremVal_spec (val np) np.length (np.getLastD 0) hlen g1 g2 (Nat.pos_of_ne_zero hhi) g3
+  unfold sqrtrem
+  dsimp only
+  rw [if_neg (by omega), hv]
+  dsimp only
+  generalize val np = u at *
+  -- the root fits in (nn+1)/2 limbs
+  have hult : u < B ^ np.length := by
+    have : (np.getLastD 0 + 1) * B ^ (np.length - 1) ≤ B * B ^ (np.length - 1) :=
+      Nat.mul_le_mul_right _ (by omega)
+    have e : B * B ^ (np.length - 1) = B ^ np.length := by
+      rw [← pow_succ']; congr 1; omega
+    omega
+  have hslt : Nat.sqrt u < B ^ ((np.length + 1) / 2) := by
+    rw [Nat.sqrt_lt', ← pow_mul]
+    exact Nat.lt_of_lt_of_le hult (Nat.pow_le_pow_right B_pos (by omega))
+  obtain ⟨t1, t2⟩ := val_toLimbs ((np.length + 1) / 2) (Nat.sqrt u)
+  obtain ⟨n1, n2⟩ := val_natLimbs (u - Nat.sqrt u * Nat.sqrt u)
+  refine ⟨by rw [t1, Nat.mod_eq_of_lt hslt], t2, n1, rfl, ?_⟩
+  rw [n2]
+  constructor
+  · intro h; exact ⟨Nat.sqrt u, by have := Nat.sqrt_le u; omega⟩
+  · rintro ⟨k, rfl⟩; rw [Nat.sqrt_eq]; omega
+
+
+theorem natLimbs_wf (v : Nat) (h : v ≠ 0) :
+    natLimbs v ≠ [] ∧ Limbs (natLimbs v) ∧ (natLimbs v).getLastD 0 ≠ 0 := by
+  induction v using Nat.strong_induction_on with
+  | _ v ih =>
+    rw [natLimbs_pos v h]
+    refine ⟨by simp, ?_, ?_⟩
+    · by_cases h2 : v / B = 0
+      · rw [h2, natLimbs_zero]; exact Limbs_cons.mpr ⟨Nat.mod_lt _ B_pos, Limbs_nil⟩
+      · exact Limbs_cons.mpr ⟨Nat.mod_lt _ B_pos,
+          (ih (v / B) (Nat.div_lt_self (Nat.pos_of_ne_zero h) (by unfold B; norm_num)) h2).2.1⟩
+    · by_cases h2 : v / B = 0
+      · rw [h2, natLimbs_zero]
+        have : v % B = v := Nat.mod_eq_of_lt ((Nat.div_eq_zero_iff_lt B_pos).mp h2)
+        simp [List.getLastD, this, h]
+      · obtain ⟨a1, a2, a3⟩ := ih (v / B) (Nat.div_lt_self (Nat.pos_of_ne_zero h) (by unfold B; norm_num)) h2
+        obtain ⟨y, ys, hy⟩ := List.exists_cons_of_ne_nil a1
+        rw [hy] at a3 ⊢
+        simpa [List.getLastD] using a3
+
+
 end Mpir.Root
